@@ -14,6 +14,7 @@ import (
 	"verif/engine/dfs"
 	"verif/engine/evid"
 	"verif/engine/shard"
+	"verif/props/coll"
 
 	gio "github.com/whatap/golib/io"
 	"github.com/whatap/golib/lang/pack"
@@ -392,7 +393,7 @@ func (s cscen) scenario() dfs.Scenario {
 				x.Yield(sched.Op{Kind: "stopper-any"})
 			} else {
 				x.Yield(sched.Op{Kind: "stopper-wait", Enabled: func() bool {
-					return left == 0 && z.Queue.Size() == 0 && run.PendingKind() == "sleep"
+					return left == 0 && coll.QueueLen(z.Queue) == 0 && run.PendingKind() == "sleep"
 				}})
 			}
 			cancelled = true
@@ -564,6 +565,9 @@ func Run(c *evid.Ctx) {
 	defaults(c)
 	sequential(c, depth)
 	shard.Spawn(c, 16, true)
+	// the premise of the enumeration above (atomic blocks = data-race-free code) is checked in the
+	// race mode of the explorer (race.go)
+	shard.SpawnRace(c, 8)
 	c.Cov["traces_validated_against_impl"] = c.Counter("states")
 	c.Cov["rule"] = "sequential: states = complete Append/SendDirect histories (record sizes around the thresholds, record-time steps 0 / maxWait-1 / maxWait, five settings, consuming and retaining client) on the real sender, each judged for exactly-once/in-order/decodable/count/compression-iff-threshold/immutability and the flush deadlines; concurrent: states = complete schedules of 1-2 producers, the real background goroutine and a stopper, judged the same way after the stop"
 	c.Sample(map[string]interface{}{"sequential_history": "Append(60B,+0ms) SendDirect(3) Append(200B,+1000ms)", "settings": "maxBuf 64 / maxWait 1000 / zipMin 40", "client": "retaining"})
